@@ -714,17 +714,21 @@ def check_spec(ctx, spec, history=None):
     try:
         obj, espec, _keep_alive = prepare(spec, history)
     except UnderTestDeviation as e:
-        ctx.violation(f"setup|{KINDNAME[spec['kind']]}|{tag}{e.symptom}", e.detail, case)
+        # the history / atom-field tags describe what happens AFTER construction: only a failing history op carries one
+        t = history_tag(history) if e.symptom.startswith("history-op") else ""
+        ctx.violation(f"setup|{KINDNAME[spec['kind']]}|{t}{e.symptom}", e.detail, case)
         ctx.outcome(("setup", e.symptom))
         return {}
     kind = espec["kind"]
     cells, detail, texts, wfail = _evaluate(ctx, obj, espec, tmp, tmpw)
     base_syms: set = set()
-    if history and (cells or wfail):
-        # which symptoms belong to the HISTORY?  the same written structure, freshly built without any history,
-        # is evaluated too; what it shows as well is reported without the history tag (as the S layers do)
+    if tag and (cells or wfail):
+        # which symptoms belong to the HISTORY / to the extra atom fields?  the same written structure, freshly built without
+        # any history (and, when there is no history, without the extra fields), is evaluated too; what it shows as well
+        # is reported without the tag (as the S layers do)
         try:
-            obj0, espec0 = build(espec)
+            plain = espec if history else dict(espec, atoms=[a[:4] for a in espec["atoms"]])
+            obj0, espec0 = build(plain)
             c0, _d0, _t0, w0 = _evaluate(ctx, obj0, espec0, tmp, tmpw)
             base_syms = set(c0) | {"write:" + k for k in w0}
         except UnderTestDeviation:
@@ -1162,7 +1166,39 @@ MM_SOURCES = ["molli:Molecule.dumps_mol2", "molli:Structure.dump_mol2", "harness
 BOND_TOKEN = {"Single": "1", "Double": "2", "Triple": "3", "Aromatic": "ar", "Amide": "am", "Dummy": "du", "Unknown": "un", "NotConnected": "nc"}
 
 
+MM_PARSER = ["parsing.read_mol2"]
+
+
+class _Shim:
+    def __init__(self, **kw):
+        self.__dict__.update(kw)
+
+
+def mol2_block_shim(b):
+    """a MOL2Block of the public parser API as a molecule-like object for the oracle (+ header/record consistency)"""
+    atoms = []
+    for a in b.atoms:
+        tok = a.mol2_type.split(".")
+        sym = tok[1] if tok[0] == "Du" and len(tok) > 1 else tok[0]
+        atoms.append(_Shim(element=int(Element[sym]) if sym in Element.__members__ else -1, label=a.label))
+    bonds = [_Shim(a1=atoms[bd.a1 - 1], a2=atoms[bd.a2 - 1], btype=BondType[BOND_OF_TOKEN[bd.mol2_type]]) for bd in (b.bonds or [])]
+    return _Shim(
+        name=b.header.name,
+        atoms=atoms,
+        coords=np.array([a.xyz for a in b.atoms], dtype=float).reshape(len(atoms), 3),
+        atomic_charges=np.array([a.charge for a in b.atoms], dtype=float),
+        bonds=bonds,
+        header_ok=b.header.n_atoms == len(atoms) and (b.header.n_bonds in (None, len(bonds))),
+        header=(b.header.n_atoms, b.header.n_bonds, len(atoms), len(bonds)),
+    )
+
+
 def mm_read(entry, text, tmp):
+    if entry == "parsing.read_mol2":
+        from molli.parsing import read_mol2
+
+        blocks = list(read_mol2(io.StringIO(text)))  # consume the generator FIRST, look at the blocks afterwards
+        return [mol2_block_shim(b) for b in blocks]
     cname, fn = entry.split(".", 1)
     if fn == "yield_from_mol2":
         return list(RCLASS[cname].yield_from_mol2(io.StringIO(text)))
@@ -1245,15 +1281,18 @@ def check_multimol(ctx, blocks):
             text, exp = mm_text(blocks, src, tmpw)
         except HarnessError:
             raise
+        except UnderTestDeviation as e:
+            add(f"build-{e.symptom}", src, "-", e.detail)
+            continue
         except Exception as e:
             add(f"write-raised-{exc(e)}", src, "-", f"{exc(e)}: {e}")
             continue
         texts.append(text)
         tmp.write_text(text, encoding="utf-8", newline="")
-        for r in MM_ALL + MM_FIRST:
+        for r in MM_ALL + MM_FIRST + MM_PARSER:
             ctx.count(transitions=1)
             cname = r.split(".")[0]
-            want_q = cname == "Molecule" and src != "molli:Structure.dump_mol2"
+            want_q = cname in ("Molecule", "parsing") and src != "molli:Structure.dump_mol2"
             try:
                 res = mm_read(r, text, tmp)
             except Exception as e:
@@ -1272,15 +1311,22 @@ def check_multimol(ctx, blocks):
                         for s_, d in sy:
                             add(s_, src, r, d)
                 continue
-            if not isinstance(res, list) or any(not isinstance(m, RCLASS[cname]) for m in res):
+            if not isinstance(res, list) or (r not in MM_PARSER and any(not isinstance(m, RCLASS[cname]) for m in res)):
                 add("wrong-result-type", src, r, type(res).__name__)
                 continue
             if len(res) != k:
                 add("molecule-count-changed", src, r, f"{len(res)} molecules read, {k} written")
                 continue
+            if r in MM_PARSER and any(not m.header_ok for m in res):
+                bad = next(m for m in res if not m.header_ok)
+                add("block-header-counts-disagree-with-its-records", src, r, f"header says {bad.header[0]} atoms / {bad.header[1]} bonds, the block holds {bad.header[2]} / {bad.header[3]}")
             for bi in range(k):
                 sy = mm_cmp(exp[bi], res[bi], want_q)
                 if not sy:
+                    continue
+                if r in MM_PARSER:
+                    # one symptom for the parser-level API (which clause differs is in the message)
+                    add("parser-block-content-differs-from-the-text", src, r, f"block {bi} of {k} kept from list(read_mol2(...)): " + "; ".join(d for _s, d in sy)[:300])
                     continue
                 mine = {mm_clause(s_) for s_, _ in sy}
                 leaked = set()
@@ -1299,15 +1345,19 @@ def check_multimol(ctx, blocks):
 
     def rdesc(rs):
         rs = set(rs)
-        if rs == set(MM_ALL + MM_FIRST):
+        if rs == set(MM_ALL + MM_FIRST + MM_PARSER):
             return "*"
-        if rs == set(MM_ALL):
+        if rs == set(MM_ALL + MM_PARSER):
             return "all-molecule-readers"
+        if rs == set(MM_ALL):
+            return "object-level-all-molecule-readers"
         if rs == set(MM_FIRST):
             return "first-molecule-readers"
         for c in ("Molecule", "Structure"):
             if rs == {x for x in MM_ALL if x.startswith(c + ".")}:
                 return f"{c}:all-molecule-readers"
+            if rs == {x for x in MM_ALL + MM_FIRST if x.startswith(c + ".")}:
+                return f"{c}:*"
         return ",".join(sorted(rs))
 
     def sdesc(ss):
@@ -1340,6 +1390,8 @@ def repro_multimol(blocks, src, r):
     if src.startswith("molli:"):
         src = "harness:USER_CHARGES"
     text, _ = mm_text(blocks, src, None)
+    if "." not in r:  # a write-side finding: there is no reader in the cell
+        r = "Molecule.loads_all_mol2"
     cname, fn = r.split(".", 1)
     base = fn.split("[")[0]
     arg = "text" if base.startswith("loads") else "io.StringIO(text)"
@@ -1698,7 +1750,7 @@ def check_write_edit_write(ctx, spec, first, edits):
             except Exception as ex:
                 raise UnderTestDeviation(f"edit-raised-{exc(ex)}", f"editing {e['f']} in place raised {exc(ex)}: {ex}")
     except UnderTestDeviation as e:
-        ctx.violation(f"setup|{kn}|{tag}{e.symptom}", e.detail, case)
+        ctx.violation(f"setup|{kn}|{tag if e.symptom.startswith('edit-') else ''}{e.symptom}", e.detail, case)
         return
     cells, detail, texts, wfail = _evaluate(ctx, obj, espec, tmp, tmpw)
     # the type columns of the second text against fresh atoms / bonds holding the CURRENT fields
@@ -2007,6 +2059,183 @@ def check_lc(ctx, kind, case):
 
 
 # =================================================================================================
+# TR : the same (element, atype, geom) triple in other REPRESENTATIONS of the enum-valued fields: plain ints,
+#      numpy ints, objects that went through pickle / a MoleculeLibrary / a ConformerLibrary (msgpack gives ints)
+# =================================================================================================
+def check_repr_local(ctx, tr):
+    z, t, g = tr
+    ctx.count(evaluations=1, states=1, traces=1)
+    try:
+        want = fresh_token(z, t, g)
+    except Exception:
+        return  # reported by layer TA
+    for rep, mk in (("int", int), ("numpy.int64", np.int64)):
+        ctx.count(transitions=1)
+        case = {"layer": "TR", "triple": [z, t, g], "rep": rep}
+        try:
+            got = Atom(Element(z), atype=mk(t), geom=mk(g)).get_mol2_type()
+        except Exception as e:
+            ctx.violation(f"typing-representation|{rep}|raised-{exc(e)}", f"Atom(atype={rep}({t}), geom={rep}({g})).get_mol2_type() raised {exc(e)}: {e}", case)
+            continue
+        ctx.outcome(("TR", rep, tokclass(want), tokclass(got)))
+        if got != want:
+            ctx.violation(
+                f"typing-representation|{rep}|typed-differently-from-enum-members",
+                f"{Element(z).name}/{AtomType(t).name}/{AtomGeom(g).name} given as {rep} values is typed {got!r}; given as enum members it is typed {want!r}",
+                case,
+                repro=f"from molli.chem import Atom, AtomType, AtomGeom\nprint(Atom({Element(z).name!r}, atype={t}, geom={g}).get_mol2_type(), Atom({Element(z).name!r}, atype=AtomType({t}), geom=AtomGeom({g})).get_mol2_type())",
+            )
+    if t != REG or g != UNKG:
+        ctx.nontrivial(("TR", z, t, g))
+
+
+REPR_OBJECTS = ["int-fields", "pickle", "MoleculeLibrary", "ConformerLibrary"]
+
+
+def check_repr_objects(ctx, trs, seed):
+    """100 typings in one molecule; the molecule in another representation is written; its type column must be the one of enum-built atoms"""
+    import pickle
+
+    import molli as ml
+
+    case = {"layer": "TRO", "triples": [list(t) for t in trs]}
+    spec = tb_spec("M", trs, seed)
+    try:
+        want = [fresh_token(z, t, g) for z, t, g in trs]
+    except Exception:
+        return
+    tmp = Path(ctx.scratch) / f"c07-{os.getpid()}-tr.mol2"
+    for rep in REPR_OBJECTS:
+        ctx.count(evaluations=1, states=1, traces=1, transitions=3)
+        try:
+            obj, _ = build(spec)
+            if rep == "int-fields":
+                for a in obj.atoms:
+                    a.atype, a.geom = int(a.atype), int(a.geom)
+            elif rep == "pickle":
+                obj = pickle.loads(pickle.dumps(obj))
+            elif rep == "MoleculeLibrary":
+                lp = Path(ctx.scratch) / f"c07-{os.getpid()}.mlib"
+                lib = ml.MoleculeLibrary(lp, readonly=False, overwrite=True)
+                with lib.writing():
+                    lib["k"] = obj
+                with lib.reading():
+                    obj = lib["k"]
+            else:
+                lp = Path(ctx.scratch) / f"c07-{os.getpid()}.clib"
+                lib = ml.ConformerLibrary(lp, readonly=False, overwrite=True)
+                with lib.writing():
+                    lib["k"] = ConformerEnsemble(obj, n_conformers=1, coords=np.array(obj.coords, dtype=float)[None])
+                with lib.reading():
+                    obj = lib["k"]
+            text = do_write(obj, "dump_mol2[StringIO]", tmp)
+        except UnderTestDeviation as e:
+            ctx.violation(f"typing-representation|{rep}|setup-{e.symptom}", e.detail, case)
+            continue
+        except Exception as e:
+            if not raised_in_library(e):
+                raise
+            ctx.violation(f"typing-representation|{rep}|raised-{exc(e)}", f"{rep} round trip + dump_mol2 raised {exc(e)}: {e}", case)
+            continue
+        col = atom_type_column(text)
+        ctx.nontrivial(("TRO", rep, digest(case)))
+        ctx.outcome(("TRO", rep, digest(col)))
+        if len(col) != len(want):
+            ctx.violation(f"typing-representation|{rep}|atom-lines-changed", f"{len(col)} atom lines, {len(want)} atoms", case)
+            continue
+        seen = set()
+        for i, (x, y) in enumerate(zip(want, col)):
+            if x != y and (tokclass(x), tokclass(y)) not in seen:
+                seen.add((tokclass(x), tokclass(y)))
+                ctx.violation(
+                    f"typing-representation|{rep}|typed-differently-from-enum-members",
+                    f"atom {i} ({Element(trs[i][0]).name}/{AtomType(trs[i][1]).name}/{AtomGeom(trs[i][2]).name}) of a molecule that went through {rep} is written as {y!r}; built from enum members it is {x!r}",
+                    case,
+                )
+
+
+# =================================================================================================
+# SV : VIEWS and copies of views as written objects: Substructure over ascending / reversed / shuffled index
+#      lists, Structure(sub) / Molecule(sub) copies, Conformer views and Molecule(conformer) copies.
+#      Atom k of the text = (element, label, coordinates, ...) of source.atoms[k] by the PARENT's own data
+# =================================================================================================
+SV_SOURCES = ["Substructure", "Structure(sub)", "Molecule(sub)"]
+
+
+def sv_order(idx):
+    return "ascending" if idx == sorted(idx) else ("reversed" if idx == sorted(idx, reverse=True) else "shuffled")
+
+
+def check_views(ctx, pspec, idx):
+    """pspec: spec of the parent (kind M or S); idx: the index list of the view"""
+    tmp = Path(ctx.scratch) / f"c07-{os.getpid()}.mol2"
+    tmpw = Path(ctx.scratch) / f"c07-{os.getpid()}-w.mol2"
+    case = {"layer": "SV", "spec": pspec, "idx": idx}
+    order = sv_order(idx)
+    ctx.count(evaluations=1, states=1, traces=1)
+    ctx.nontrivial(("SV", digest(case)))
+    pos = {i: p for p, i in enumerate(idx)}
+    bonds = [(pos[i], pos[j], bt) for i, j, bt in pspec["bonds"] if i in pos and j in pos]
+    fr = pspec["frames"][0]
+    for src in SV_SOURCES:
+        try:
+            parent, pref = build(pspec)
+            fr = pref["frames"][0]
+            sub = Substructure(parent, list(idx))
+            if src == "Substructure":
+                obj, kind = sub, "S"
+            elif src == "Structure(sub)":
+                obj, kind = Structure(sub), "S"
+            else:
+                obj, kind = Molecule(sub), "M"
+            name = obj.name if hasattr(obj, "name") else "unknown"
+            q = [float(x) for x in np.array(obj.atomic_charges, dtype=float)] if kind == "M" else [fr["q"][i] for i in idx]
+        except UnderTestDeviation as e:
+            ctx.violation(f"setup|view|{e.symptom}", e.detail, case)
+            return
+        except Exception as e:
+            if not raised_in_library(e):
+                raise
+            ctx.violation(f"setup|view[{src}]|raised-{exc(e)}", f"{src} over atoms {idx}: {exc(e)}: {e}", case)
+            continue
+        # the reference: the PARENT's data in the order of the index list (harness spec of the parent)
+        espec = mkspec(kind, name, [pspec["atoms"][i] for i in idx], [{"xyz": [fr["xyz"][i] for i in idx], "q": q}], bonds)
+        cells, detail, texts, wfail = _evaluate(ctx, obj, espec, tmp, tmpw)
+        ctx.outcome(("SV", src, digest(sorted(texts)), tuple(sorted(cells)), tuple(sorted(wfail))))
+        wok = sorted(w for ws in texts.values() for w in ws)
+        for sym in sorted(wfail):
+            ws = [w for w, _ in wfail[sym]]
+            ctx.violation(f"write|view[{src}]|order={order}|{sym}|w={_desc(ws, WRITERS)}", f"{src} over atoms {idx}: {wfail[sym][0][1]}", case)
+        for sym in sorted(cells):
+            cs = cells[sym]
+            ws, rs = sorted({w for w, _ in cs}), sorted({r for _, r in cs})
+            groups = [(ws, rs)] if cs == set(itertools.product(ws, rs)) else [([w], [r]) for w, r in sorted(cs)]
+            for gw, gr in groups:
+                ctx.violation(
+                    f"rt|view[{src}]|order={order}|{sym}|w={_desc(gw, wok)}|r={_desc(gr, reader_universe(sym, 1))}",
+                    f"{src} over atoms {idx} of a {KINDNAME[pspec['kind']]}, written by {gw[0]}, read by {gr[0]}: {detail.get((sym, gw[0], gr[0]), detail.get(sym, sym))}",
+                    case,
+                )
+    clear_bond_cache()
+
+
+def gen_SV(seed, thorough):
+    tr = triples(seed + 10, [v for v in CVALS if v == v])
+    atoms = [(1, "H1", REG, UNKG), (6, "C2", REG, UNKG), (7, None, int(AtomType.sp2), UNKG), (8, "O4", REG, UNKG), (9, "F5", REG, UNKG)]
+    bonds = [(1, 0, BT["Single"]), (1, 2, BT["Double"]), (3, 1, BT["Aromatic"]), (4, 1, BT["Single"]), (2, 3, BT["Triple"])]
+    xyz = [tr[i % len(tr)] for i in range(5)]
+    xyz = [[p[0] + i, p[1], p[2] - i] for i, p in enumerate(xyz)]
+    q = [0.125, -0.25, 0.375, -0.5, 0.625]
+    lists = [[0, 1, 2, 3, 4], [4, 3, 2, 1, 0], [4, 1, 3], [1, 3, 4], [3, 1], [2], [2, 4, 0, 3, 1], [1, 2]]
+    if thorough:
+        lists += [list(p) for p in itertools.permutations(range(5), 3)]
+    for kind in ("M", "S"):
+        spec = mkspec(kind, "parent", atoms, [{"xyz": xyz, "q": q}], bonds)
+        for idx in rot(lists, seed):
+            yield spec, idx
+
+
+# =================================================================================================
 # partitioned drivers
 # =================================================================================================
 def _part_inner(ctx, part):
@@ -2056,6 +2285,23 @@ def _part_inner(ctx, part):
             for b in range(m):
                 check_tb(ctx, "M", [reps[a], reps[b]], seed, bonded=True)
                 ctx.add_note("cases_TB2")
+        return
+    if layer == "TR":
+        trs = rot(all_triples(), seed * 7919)
+        for idx in range(i, len(trs), nparts):
+            check_repr_local(ctx, trs[idx])
+            ctx.add_note("cases_TR")
+        chunks = [trs[k : k + 100] for k in range(0, len(trs), 100)]
+        for idx in range(i, len(chunks), nparts):
+            check_repr_objects(ctx, chunks[idx], seed)
+            ctx.add_note("cases_TR_objects")
+        return
+    if layer == "SV":
+        for idx, (spec, ilist) in enumerate(gen_SV(seed, thorough)):
+            if idx % nparts != i:
+                continue
+            check_views(ctx, spec, ilist)
+            ctx.add_note("cases_SV")
         return
     if layer == "LC":
         cases = lc_cases(seed)
@@ -2145,6 +2391,11 @@ def run(ctx):
         "fixed point = the text of the first write is reproduced byte for byte by writing what the same class read from it",
         "loads_mol2/load_mol2 of a multi-molecule text return the first molecule (documented behaviour); loads_all/ConformerEnsemble return all, in order",
         "an ensemble with 0 conformers has no mol2 text and is out of scope",
+        "layer TR: the enum-valued atom fields may be held as enum members, plain ints or numpy ints (msgpack libraries return ints): every (element, atype, geom) triple must be typed "
+        "the same in each representation, atom-locally and in molecules that went through pickle / MoleculeLibrary / ConformerLibrary",
+        "layer SV: views as written objects - Substructure over ascending / reversed / shuffled index lists and Structure(sub) / Molecule(sub) copies; atom k of the text is "
+        "source.atoms[k] with the PARENT's element, label, coordinates, and the parent's bonds among the selected atoms; the name compared is the one the written object reports",
+        "generator-returning entry points (yield_from_mol2, parsing.read_mol2) are consumed with list() first and compared afterwards",
         "layer SX: atoms carrying fields the mol2 format does not store (isotope 2/3 on H, 13 on C, 18 on O, formal charge / spin, stereo, attrib) must still be written as a "
         "text that reads back with everything the format does store (the existing oracle)",
         "layer LC: free-text alphabet = every printable non-blank ASCII character (33..126) in atom labels (alone, at the start / middle / end, every ordered pair of "
@@ -2186,7 +2437,7 @@ def run(ctx):
     ctx.note("property_text_says_triples", "119 x 22 x 17; the tree under test has %d x %d x %d" % (nE, nT, nG))
     np_ = 16 if thorough else 8
     parts = []
-    for layer in ("TA", "TA2", "TB", "BL", "S0", "SX", "TC", "S4", "SH", "LC", "WE", "HW", "S2", "S1", "S3"):
+    for layer in ("TA", "TA2", "TR", "TB", "BL", "S0", "SX", "SV", "TC", "S4", "SH", "LC", "WE", "HW", "S2", "S1", "S3"):
         n = 1 if layer in ("S0",) else np_ * (4 if layer in ("S1", "S3", "S2") or (thorough and layer == "HW") else 1)
         parts += [(layer, i, n) for i in range(n)]
     if thorough:
@@ -2221,6 +2472,12 @@ def replay(ctx, case):
         check_triple(ctx, tuple(int(x) for x in case["triple"]))
     elif layer == "TB":
         check_tb(ctx, case["kind"], [tuple(int(x) for x in t) for t in case["triples"]], ctx.seed, bonded=bool(case.get("bonded")))
+    elif layer == "TR":
+        check_repr_local(ctx, tuple(int(x) for x in case["triple"]))
+    elif layer == "TRO":
+        check_repr_objects(ctx, [tuple(int(x) for x in t) for t in case["triples"]], ctx.seed)
+    elif layer == "SV":
+        check_views(ctx, normspec(case["spec"]), [int(x) for x in case["idx"]])
     elif layer == "LC":
         if case["field"] == "name":
             check_lc(ctx, case["kind"], ("name", case["text"], None))
